@@ -19,6 +19,7 @@ STREAMS = [[], [0], [1], [2, 9], [1, 2], [3, 4, 6], [3, 4, 5], [3, 4, 5, 6], [25
 STRS = ["", "a", "ab", "xyz", "€\U0001F600!"]
 
 SPECS = [
+    (Func("t_robust"), [(a,) for a in range(-7, 40)]),
     (Func("t_arith"), list(itertools.product(SMALL, SMALL))),
     (Func("t_divlit"), [(a,) for a in INTS + BIG]),
     (Func("t_bits"), list(itertools.product(SMALL + [255, -256, 2 ** 40], SMALL + [2 ** 33 - 1]))),
